@@ -864,3 +864,351 @@ Proof.
     rewrite ML. vsteps. eexists. reflexivity.
 Qed.
 End Insert.
+
+(* ------------------------------------------------------------------ the argument block, all arguments
+   What _encode_python_obj's opcodes build on the reference VM, as a direct recursive function:
+   dec a h = (value, heap after) when run with heap h.  Lists and dicts allocate one heap object
+   each, inner objects first. *)
+Fixpoint dec (a : arg) (h : list hobj) : val * list hobj :=
+  match a with
+  | AConst c => (VConst c, h)
+  | AList l =>
+      let r := (fix go (l : list arg) (h : list hobj) : list val * list hobj :=
+                  match l with
+                  | [] => ([], h)
+                  | x :: t => let r1 := dec x h in let r2 := go t (snd r1) in (fst r1 :: fst r2, snd r2)
+                  end) l h in
+      (VRef (List.length (snd r)), snd r ++ [HList (fst r)])
+  | ADict kvs =>
+      let r := (fix go (kvs : list (const * arg)) (h : list hobj) : list (val * val) * list hobj :=
+                  match kvs with
+                  | [] => ([], h)
+                  | (k, v) :: t => let r1 := dec v h in let r2 := go t (snd r1) in
+                                   ((VConst k, fst r1) :: fst r2, snd r2)
+                  end) kvs h in
+      (VRef (List.length (snd r)), snd r ++ [HDict (fst r)])
+  end.
+
+Fixpoint dec_list (l : list arg) (h : list hobj) : list val * list hobj :=
+  match l with
+  | [] => ([], h)
+  | x :: t => let r1 := dec x h in let r2 := dec_list t (snd r1) in (fst r1 :: fst r2, snd r2)
+  end.
+Fixpoint dec_dict (kvs : list (const * arg)) (h : list hobj) : list (val * val) * list hobj :=
+  match kvs with
+  | [] => ([], h)
+  | (k, v) :: t => let r1 := dec v h in let r2 := dec_dict t (snd r1) in
+                   ((VConst k, fst r1) :: fst r2, snd r2)
+  end.
+Fixpoint enc_list (l : list arg) : list op :=
+  match l with [] => [] | x :: r => encode_obj x ++ enc_list r end.
+Fixpoint enc_dict (kvs : list (const * arg)) : list op :=
+  match kvs with [] => [] | (k, v) :: r => OConst k :: encode_obj v ++ enc_dict r end.
+
+Lemma dec_AList l h :
+  dec (AList l) h = (VRef (List.length (snd (dec_list l h))), snd (dec_list l h) ++ [HList (fst (dec_list l h))]).
+Proof.
+  cbn [dec].
+  assert (forall l' h', (fix go (l : list arg) (h : list hobj) : list val * list hobj :=
+                  match l with
+                  | [] => ([], h)
+                  | x :: t => let r1 := dec x h in let r2 := go t (snd r1) in (fst r1 :: fst r2, snd r2)
+                  end) l' h' = dec_list l' h') as E.
+  { intros l'. induction l' as [|x t IH]; intros h0; [reflexivity|]. cbn [dec_list]. rewrite IH. reflexivity. }
+  rewrite E. reflexivity.
+Qed.
+
+Lemma dec_ADict kvs h :
+  dec (ADict kvs) h = (VRef (List.length (snd (dec_dict kvs h))), snd (dec_dict kvs h) ++ [HDict (fst (dec_dict kvs h))]).
+Proof.
+  cbn [dec].
+  assert (forall kvs' h', (fix go (kvs : list (const * arg)) (h : list hobj) : list (val * val) * list hobj :=
+                  match kvs with
+                  | [] => ([], h)
+                  | (k, v) :: t => let r1 := dec v h in let r2 := go t (snd r1) in
+                                   ((VConst k, fst r1) :: fst r2, snd r2)
+                  end) kvs' h' = dec_dict kvs' h') as E.
+  { intros kvs'. induction kvs' as [|[k v] t IH]; intros h0; [reflexivity|]. cbn [dec_dict]. rewrite IH. reflexivity. }
+  rewrite E. reflexivity.
+Qed.
+
+Lemma encode_AList l : encode_obj (AList l) = OMark :: enc_list l ++ [OList].
+Proof.
+  reflexivity.
+Qed.
+Lemma encode_ADict_cons kv kvs : encode_obj (ADict (kv :: kvs)) = OMark :: enc_dict (kv :: kvs) ++ [ODict].
+Proof.
+  reflexivity.
+Qed.
+
+(* nested induction principle for arguments *)
+Section ArgInd.
+Variable P : arg -> Prop.
+Hypothesis Hc : forall c, P (AConst c).
+Hypothesis Hl : forall l, Forall P l -> P (AList l).
+Hypothesis Hd : forall kvs, Forall (fun kv => P (snd kv)) kvs -> P (ADict kvs).
+Fixpoint arg_ind' (a : arg) : P a :=
+  match a with
+  | AConst c => Hc c
+  | AList l => Hl l ((fix go (l : list arg) : Forall P l :=
+                        match l with
+                        | [] => Forall_nil P
+                        | x :: r => Forall_cons x (arg_ind' x) (go r)
+                        end) l)
+  | ADict kvs => Hd kvs ((fix go (kvs : list (const * arg)) : Forall (fun kv => P (snd kv)) kvs :=
+                            match kvs with
+                            | [] => Forall_nil _
+                            | kv :: r => Forall_cons kv (arg_ind' (snd kv)) (go r)
+                            end) kvs)
+  end.
+End ArgInd.
+
+Definition pushes (a : arg) : Prop :=
+  forall rest c me mm h lg k,
+    vrun_from (encode_obj a ++ rest) (mkVm c me mm h lg k None) =
+    vrun_from rest (mkVm (fst (dec a h) :: c) me mm (snd (dec a h)) lg k None).
+
+Lemma st_list c p me mm h lg k st :
+  vstep OList (mkVm c (p :: me) mm h lg k st) =
+  Ok (mkVm (VRef (List.length h) :: p) me mm (h ++ [HList (rev c)]) lg k st).
+Proof. reflexivity. Qed.
+Lemma st_empty_dict c me mm h lg k st :
+  vstep OEmptyDict (mkVm c me mm h lg k st) = Ok (mkVm (VRef (List.length h) :: c) me mm (h ++ [HDict []]) lg k st).
+Proof. reflexivity. Qed.
+
+Lemma enc_list_run l : Forall pushes l ->
+  forall rest c me mm h lg k,
+    vrun_from (enc_list l ++ rest) (mkVm c me mm h lg k None) =
+    vrun_from rest (mkVm (rev (fst (dec_list l h)) ++ c) me mm (snd (dec_list l h)) lg k None).
+Proof.
+  induction 1 as [|x r Hx _ IH]; intros rest c me mm h lg k; [reflexivity|].
+  cbn [enc_list dec_list fst snd]. rewrite <- app_assoc, Hx, IH. cbn [rev]. rewrite <- app_assoc. reflexivity.
+Qed.
+
+(* the interleaved key / value list a dict argument leaves above its mark *)
+Fixpoint flat_pairs (ps : list (val * val)) : list val :=
+  match ps with [] => [] | (k, v) :: r => k :: v :: flat_pairs r end.
+
+Lemma enc_dict_run kvs : Forall (fun kv => pushes (snd kv)) kvs ->
+  forall rest c me mm h lg k,
+    vrun_from (enc_dict kvs ++ rest) (mkVm c me mm h lg k None) =
+    vrun_from rest (mkVm (rev (flat_pairs (fst (dec_dict kvs h))) ++ c) me mm (snd (dec_dict kvs h)) lg k None).
+Proof.
+  induction 1 as [|[kc v] r Hx _ IH]; intros rest c me mm h lg k; [reflexivity|].
+  cbn [enc_dict dec_dict fst snd flat_pairs app]. rewrite vrun_cons, st_const. cbn [bind].
+  rewrite <- app_assoc. cbn [snd] in Hx. rewrite Hx, IH. cbn [rev]. repeat rewrite <- app_assoc. reflexivity.
+Qed.
+
+Lemma vpairs_flat ps : vpairs_of (flat_pairs ps) = Ok ps.
+Proof. induction ps as [|[k v] r IH]; [reflexivity|]. cbn [flat_pairs vpairs_of]. rewrite IH. reflexivity. Qed.
+
+Lemma dec_dict_keys_hashable kvs h :
+  forallb (fun kv => hashable (fst kv)) (fst (dec_dict kvs h)) = true.
+Proof.
+  revert h. induction kvs as [|[k v] r IH]; intros h; [reflexivity|]. cbn [dec_dict fst forallb hashable andb]. apply IH.
+Qed.
+
+Lemma st_dict c p me mm h lg k st ps :
+  rev c = flat_pairs ps -> forallb (fun kv => hashable (fst kv)) ps = true ->
+  vstep ODict (mkVm c (p :: me) mm h lg k st) =
+  Ok (mkVm (VRef (List.length h) :: p) me mm (h ++ [HDict ps]) lg k st).
+Proof.
+  intros E H. unfold vstep, vpop_mark. cbn [meta cur bind]. rewrite E, vpairs_flat. cbn [bind]. rewrite H. reflexivity.
+Qed.
+
+Lemma encode_obj_pushes : forall a, pushes a.
+Proof.
+  apply arg_ind'.
+  - intros c rest st me mm h lg k. cbn [encode_obj app dec fst snd]. rewrite vrun_cons, st_const. reflexivity.
+  - intros l F rest c me mm h lg k. rewrite encode_AList, dec_AList. cbn [app fst snd].
+    rewrite vrun_cons, st_mark. cbn [bind]. rewrite <- app_assoc, (enc_list_run l F). cbn [app].
+    rewrite vrun_cons, st_list. cbn [bind]. rewrite app_nil_r, rev_involutive. reflexivity.
+  - intros kvs F rest c me mm h lg k. destruct kvs as [|kv kvs].
+    + cbn [encode_obj app]. rewrite dec_ADict. cbn [dec_dict fst snd]. rewrite vrun_cons, st_empty_dict. reflexivity.
+    + rewrite encode_ADict_cons, dec_ADict. cbn [app fst snd].
+      rewrite vrun_cons, st_mark. cbn [bind]. rewrite <- app_assoc, (enc_dict_run _ F). cbn [app].
+      rewrite vrun_cons, (st_dict _ _ _ _ _ _ _ _ (fst (dec_dict (kv :: kvs) h))).
+      * reflexivity.
+      * rewrite app_nil_r, rev_involutive. reflexivity.
+      * apply dec_dict_keys_hashable.
+Qed.
+
+Lemma encode_objs_enc_list args : encode_objs args = enc_list args.
+Proof. unfold encode_objs. induction args as [|x r IH]; [reflexivity|]. cbn. rewrite IH. reflexivity. Qed.
+
+(* the decoded arguments and the heap objects they allocate, from the empty heap *)
+Definition dec_args (args : list arg) : list val * list hobj := dec_list args [].
+
+Theorem args_eval_total m n args :
+  plain2 m n = true -> args_eval m n args (fst (dec_args args)) (snd (dec_args args)).
+Proof.
+  intros P. unfold args_eval, call_setup, vm_init. rewrite encode_objs_enc_list. cbn [app]. vsteps.
+  rewrite enc_list_run by (apply Forall_forall; intros a _; apply encode_obj_pushes).
+  cbn [app]. vsteps. rewrite app_nil_r, rev_involutive. reflexivity.
+Qed.
+
+Lemma dec_args_consts cs : dec_args (map AConst cs) = (map VConst cs, []).
+Proof.
+  unfold dec_args. generalize (@nil hobj). induction cs as [|c r IH]; intros h; [reflexivity|].
+  cbn [map dec_list dec fst snd]. rewrite IH. reflexivity.
+Qed.
+
+(* ------------------------------------------------------------------ the single final STOP (pure list reasoning) *)
+Definition const_eq_dec : forall a b : const, {a = b} + {a <> b}.
+Proof. decide equality; try apply string_dec; try apply Z.eq_dec; apply bool_dec. Defined.
+Definition op_eq_dec : forall a b : op, {a = b} + {a <> b}.
+Proof. decide equality; try apply string_dec; try apply Z.eq_dec; apply const_eq_dec. Defined.
+
+Definition nstops (p : list op) : nat := count_occ op_eq_dec p OStop.
+
+Lemma nstops_app a b : nstops (a ++ b) = nstops a + nstops b.
+Proof. apply count_occ_app. Qed.
+
+Lemma stop_free_nstops a : stop_free a = true -> nstops a = 0.
+Proof.
+  unfold nstops. induction a as [|o r IH]; [reflexivity|]. cbn [stop_free forallb]. intros H.
+  apply andb_prop in H. destruct H as [H1 H2]. cbn [count_occ].
+  destruct (op_eq_dec o OStop) as [->|_]; [discriminate H1|]. apply IH. exact H2.
+Qed.
+
+Lemma stop_free_app a b : stop_free (a ++ b) = stop_free a && stop_free b.
+Proof. apply forallb_app. Qed.
+
+Lemma stop_free_repeat k : stop_free (repeat ONoop k) = true.
+Proof. induction k; [reflexivity|exact IHk]. Qed.
+
+Lemma stop_free_consts cs : stop_free (map OConst cs) = true.
+Proof. induction cs; [reflexivity|exact IHcs]. Qed.
+
+Lemma stop_free_skipn k a : stop_free a = true -> stop_free (skipn k a) = true.
+Proof. intros H. rewrite <- (firstn_skipn k a), stop_free_app in H. apply andb_prop in H. tauto. Qed.
+Lemma stop_free_firstn k a : stop_free a = true -> stop_free (firstn k a) = true.
+Proof. intros H. rewrite <- (firstn_skipn k a), stop_free_app in H. apply andb_prop in H. tauto. Qed.
+
+Lemma stop_free_encode_obj : forall a, stop_free (encode_obj a) = true.
+Proof.
+  apply arg_ind'.
+  - reflexivity.
+  - intros l F. rewrite encode_AList. cbn [stop_free forallb is_stop negb andb]. fold (stop_free (enc_list l ++ [OList])).
+    rewrite stop_free_app. cbn [stop_free forallb is_stop negb andb]. rewrite andb_true_r.
+    induction F as [|x r Hx _ IH]; [reflexivity|]. cbn [enc_list]. rewrite stop_free_app, Hx. exact IH.
+  - intros kvs F. destruct kvs as [|kv kvs]; [reflexivity|]. rewrite encode_ADict_cons.
+    cbn [stop_free forallb is_stop negb andb]. fold (stop_free (enc_dict (kv :: kvs) ++ [ODict])).
+    rewrite stop_free_app. cbn [stop_free forallb is_stop negb andb]. rewrite andb_true_r.
+    induction F as [|[k v] r Hx _ IH]; [reflexivity|]. cbn [enc_dict stop_free forallb is_stop negb andb].
+    fold (stop_free (encode_obj v ++ enc_dict r)). rewrite stop_free_app. cbn [snd] in Hx. rewrite Hx. exact IH.
+Qed.
+
+Lemma stop_free_encode_objs args : stop_free (encode_objs args) = true.
+Proof.
+  unfold encode_objs. induction args as [|a r IH]; [reflexivity|]. cbn [flat_map].
+  rewrite stop_free_app, stop_free_encode_obj. exact IH.
+Qed.
+
+Lemma stop_free_call_setup m n args : stop_free (call_setup m n (encode_objs args)) = true.
+Proof.
+  unfold call_setup. cbn [app stop_free forallb is_stop negb andb].
+  fold (stop_free (encode_objs args ++ [OTuple])). rewrite stop_free_app, stop_free_encode_objs. reflexivity.
+Qed.
+
+Lemma stop_free_append_ops m n cs pop : stop_free (append_ops m n cs pop) = true.
+Proof.
+  unfold append_ops. cbn [app stop_free forallb is_stop negb andb].
+  fold (stop_free (map OConst cs ++ [OTuple; OReduce] ++ (if pop then [OPop] else []))).
+  rewrite stop_free_app, stop_free_consts. destruct pop; reflexivity.
+Qed.
+
+Lemma stop_free_callobj_ops fdef fname bc cargs : stop_free (call_on_object_ops fdef fname bc cargs) = true.
+Proof.
+  unfold call_on_object_ops. repeat rewrite stop_free_app. rewrite !stop_free_append_ops, stop_free_consts.
+  destruct bc; [rewrite stop_free_app, stop_free_append_ops|rewrite stop_free_append_ops]; reflexivity.
+Qed.
+
+(* a program that is stop-free up to a final STOP *)
+Lemma single_stop_intro a :
+  stop_free a = true -> ends_with_stop (a ++ [OStop]) = true /\ nstops (a ++ [OStop]) = 1.
+Proof.
+  intros H. split.
+  - unfold ends_with_stop. rewrite last_last. reflexivity.
+  - rewrite nstops_app, (stop_free_nstops a H). reflexivity.
+Qed.
+
+(* "the base ends in its only STOP" *)
+Definition single_final_stop (p : list op) : bool := ends_with_stop p && stop_free (removelast p).
+
+Lemma single_final_stop_inv p :
+  single_final_stop p = true -> exists q, p = q ++ [OStop] /\ stop_free q = true.
+Proof.
+  unfold single_final_stop. intros H. apply andb_prop in H. destruct H as [E S].
+  apply ends_with_stop_split in E. destruct E as (q & ->). rewrite removelast_last in S. eauto.
+Qed.
+
+Theorem inject_single_final_stop md p p' :
+  single_final_stop p = true -> inject md p = Ok p' ->
+  nstops p' = 1 /\
+  (match md with
+   | MMagic _ index => (magic_slot index p < Z.of_nat (List.length p))%Z
+   | _ => True
+   end -> ends_with_stop p' = true).
+Proof.
+  intros HS HI. apply single_final_stop_inv in HS. destruct HS as (q0 & -> & SF).
+  destruct md as [m n args rf rep|m n cs pop|magic index|fdef fname bc cargs]; cbn [inject] in HI.
+  - (* insert_python *)
+    apply insert_python_ok in HI. destruct HI as (_ & HI). cbv zeta in HI.
+    rewrite insert_block_split in HI.
+    set (k := skip_noops q0) in *. set (q := skipn k q0) in *.
+    set (blk := call_setup m n (encode_objs args)) in *.
+    assert (stop_free blk = true) as SB by apply stop_free_call_setup.
+    assert (stop_free q = true) as SQ by (apply stop_free_skipn; exact SF).
+    assert (forall pre tail, stop_free pre = true -> stop_free tail = true ->
+              stop_free ((repeat ONoop k ++ blk ++ pre ++ q) ++ tail) = true) as ALL.
+    { intros pre tail S1 S2. repeat rewrite stop_free_app. rewrite stop_free_repeat, SB, S1, SQ, S2. reflexivity. }
+    destruct rf.
+    + rewrite skip_noops_app_stop, insert_block_after in HI. fold k in HI.
+      replace (repeat ONoop k ++ blk ++ [OReduce] ++ q ++ [OStop])
+        with ((repeat ONoop k ++ blk ++ [OReduce] ++ q) ++ [OStop]) in HI
+        by (repeat rewrite <- app_assoc; reflexivity).
+      rewrite insert_last_seq_app in HI. subst p'. rewrite app_assoc.
+      destruct (single_stop_intro _ (ALL [OReduce] _ eq_refl
+                  (ltac:(destruct rep; reflexivity) :
+                     stop_free (if rep then [OPop] else [OPut KEEP_KEY; OPop; OPop; OGet KEEP_KEY]) = true))) as [E N].
+      split; [exact N|intros _; exact E].
+    + replace (repeat ONoop k ++ blk ++ q ++ [OStop]) with ((repeat ONoop k ++ blk ++ [] ++ q) ++ [OStop]) in HI
+        by (cbn [app]; repeat rewrite <- app_assoc; reflexivity).
+      destruct rep.
+      * rewrite insert_last_seq_app in HI. subst p'. rewrite app_assoc.
+        destruct (single_stop_intro _ (ALL [] [OPop; OReduce] eq_refl eq_refl)) as [E N].
+        split; [exact N|intros _; exact E].
+      * destruct HI as (f & _ & ->). rewrite insert_last_seq_app, app_assoc.
+        destruct (single_stop_intro _ (ALL [] [OMemoize; OPop; OReduce; OPop; OGet (Z.of_nat (List.length (memo f)))]
+                                           eq_refl eq_refl)) as [E N].
+        split; [exact N|intros _; exact E].
+  - (* append_python *)
+    apply append_python_ok in HI. destruct HI as (_ & ->). rewrite insert_last_seq_app, app_assoc.
+    destruct (single_stop_intro (q0 ++ append_ops m n cs pop)) as [E N].
+    { rewrite stop_free_app, SF, stop_free_append_ops. reflexivity. }
+    split; [exact N|intros _; exact E].
+  - (* insert_magic_int *)
+    injection HI as <-. rewrite magic_shape. set (j := magic_pos index (q0 ++ [OStop])).
+    split.
+    + change (OConst (CInt magic) :: OPop :: skipn j (q0 ++ [OStop]))
+        with ([OConst (CInt magic); OPop] ++ skipn j (q0 ++ [OStop])).
+      assert (nstops [OConst (CInt magic); OPop] = 0) as Z0 by reflexivity.
+      rewrite !nstops_app, Z0.
+      replace (nstops (firstn j (q0 ++ [OStop])) + (0 + nstops (skipn j (q0 ++ [OStop]))))
+        with (nstops (firstn j (q0 ++ [OStop]) ++ skipn j (q0 ++ [OStop]))) by (rewrite nstops_app; lia).
+      rewrite firstn_skipn. apply single_stop_intro. exact SF.
+    + intros LT. assert (j <= List.length q0) as L.
+      { unfold j, magic_pos. rewrite app_length in *. cbn [List.length] in *. lia. }
+      rewrite skipn_app. replace (j - List.length q0) with 0 by lia. cbn [skipn].
+      unfold ends_with_stop.
+      replace (firstn j (q0 ++ [OStop]) ++ OConst (CInt magic) :: OPop :: skipn j q0 ++ [OStop])
+        with ((firstn j (q0 ++ [OStop]) ++ OConst (CInt magic) :: OPop :: skipn j q0) ++ [OStop])
+        by (rewrite <- app_assoc; reflexivity).
+      rewrite last_last. reflexivity.
+  - (* call on object *)
+    apply callobj_ok in HI. subst p'. rewrite insert_last_seq_app, app_assoc.
+    destruct (single_stop_intro (q0 ++ call_on_object_ops fdef fname bc cargs)) as [E N].
+    { rewrite stop_free_app, SF, stop_free_callobj_ops. reflexivity. }
+    split; [exact N|intros _; exact E].
+Qed.
